@@ -17,7 +17,8 @@ def is_ili(source: AnyPath) -> bool:
     if source.is_file():
         try:
             with source.open('rb') as fh:
-                return next(fh).split(b'\t')[0] in (b'ili', b'ILI')
+                header = next(fh).rstrip(b'\r\n')
+                return header.split(b'\t')[0] in (b'ili', b'ILI')
         except (StopIteration, IndexError):
             pass
     return False
